@@ -111,7 +111,35 @@ def write_ruleset(d, m):
     with open(os.path.join(d, 'Omen', 'pcfg_omen_prob.txt'), 'w', newline='\n') as f:
         for lvl, p in m.get('m_levels') or []:
             f.write(f'{lvl}\t{float(p)!r}\n')
+    style = m.get('file_style')
+    if os.environ.get('PV_FORCE_STYLE'):
+        style = json.loads(os.environ['PV_FORCE_STYLE'])
+    if style:
+        restyle(d, style)
     return d
+
+
+def restyle(d, style):
+    """Rewrites the text files of a ruleset the way a hand edit or a line-end converting tool leaves them: CRLF line ends
+    and / or no terminator after the last line. style = {'eol': 'lf'|'crlf', 'final_newline': bool, 'scope': 'all'|'omen'|'pcfg'}."""
+    scope = style.get('scope', 'all')
+    for root, dirs, files in os.walk(d):
+        for fn in files:
+            rel = os.path.relpath(os.path.join(root, fn), d)
+            in_omen = rel.startswith('Omen' + os.sep)
+            if (scope == 'omen' and not in_omen) or (scope == 'pcfg' and in_omen):
+                continue
+            p = os.path.join(root, fn)
+            data = open(p, 'rb').read()
+            if not data:
+                continue
+            data = data.replace(b'\r\n', b'\n')
+            if not style.get('final_newline', True) and data.endswith(b'\n') and fn not in ('config.ini', 'config.txt'):
+                data = data[:-1]
+            if style.get('eol') == 'crlf':
+                data = data.replace(b'\n', b'\r\n')
+            with open(p, 'wb') as f:
+                f.write(data)
 
 
 # ------------------------------------------------------------------ model-side oracle
